@@ -125,7 +125,9 @@ def run_cases(cases, as_nobody=False, with_model=True):
         expr2 = c.expr.replace("@ROOT", unhx(root))
         # a negation given as compiled values is the same negation to the model
         mstack = ";".join(("n:" + l[3:]) if l.startswith("nc:") else l for l in c.stack.split(";"))
-        reqs.append("W %s %s %s %s %s %s %s %s %s s" % (c.mode, c.f.get("base", "-"), hx(expr2) if c.mode == "g" else "-", c.link, c.mn, c.mx,
+        # bounded_at_depth_variance: the lower depth of the pattern as the crate reports it (the query itself is C10's subject)
+        mmn = c.mn + ("@" + c.f.get("lower", "0") if c.mn.startswith("v") else "")
+        reqs.append("W %s %s %s %s %s %s %s %s %s s" % (c.mode, c.f.get("base", "-"), hx(expr2) if c.mode == "g" else "-", c.link, mmn, c.mx,
                                                       mstack, root, c.f.get("rec", "-")))
     mans = m.ask(reqs, timeout=120)
     for k, a in zip(todo, mans):
@@ -140,6 +142,37 @@ def run_cases(cases, as_nobody=False, with_model=True):
         if "root_real" not in c.f:
             c.f = normalise(c.f, c.f.get("root"))
     return cases
+
+
+def documented_bounds(c):
+    """what the documentation of the constructor named by the minimum field says the bounds are:
+    ('refused', None, None) or ('ok', lowest depth, highest depth or None)"""
+    route = c.mn[0] if c.mn[:1] in "xmv" else "b"
+    mn_t = c.mn[1:] if route != "b" else c.mn
+    mn = None if mn_t == "-" else int(mn_t)
+    mx = None if c.mx == "-" else int(c.mx)
+    if route == "x":                       # DepthMinMax::from_depths_or_max: "the depths need not be ordered"
+        if mn is None or mx is None:
+            return ("refused", None, None)
+        return ("ok", min(mn, mx), max(mn, mx))
+    if route == "m":                       # DepthMin::from_min_or_unbounded
+        if mn is None:
+            return ("refused", None, None)
+        return ("ok", mn, None)
+    if route == "v":                       # DepthBehavior::bounded_at_depth_variance: shifted by the lower depth of the pattern
+        if "lower" not in c.f:
+            return ("refused", None, None)
+        low = int(c.f["lower"])
+        mn = None if mn is None else mn + low
+        mx = None if mx is None else mx + low
+        if mn is None and mx is None:
+            return ("refused", None, None)
+    elif mn is None and mx is None:
+        return ("ok", 0, None)             # DepthBehavior::Unbounded
+    # DepthBehavior::bounded: refuses a zero minimum (NonZeroUsize) and misordered closed depths
+    if mn == 0 or (mn is not None and mx is not None and mn > mx):
+        return ("refused", None, None)
+    return ("ok", mn or 0, mx)
 
 
 def corresponds(c):
